@@ -22,7 +22,7 @@ EXPLANATION = (
     'index from the history size; (4) every Game::GameState enumerator has an arm in getGameStateString and getPGNResultString.'
     ' (5) the en-passant mask tables are correct for all 8 files and makeMove records an en-passant square only under the mask test (a spurious en-passant square makes rule-equal positions hash differently).'
     ' Added later; (7) the index set, key comparison and claim rule of the repetition scan canClaimDrawRep (finite evaluation of its own init / bound / step expressions for list lengths 0..16 and clocks 0..20); (8) every replayed move on a game position (UCI move list, console move and redo) is followed by fixupEPSquare before its key is read again (found and fixed defects D13, D14).'
-    ' Added later; (9) drawRuleEquals compares side to move, castling rights, en-passant square and the complete placement. (10) = C02.12 the en-passant normaliser the history relies on.')
+    ' Added later; (9) drawRuleEquals compares side to move, castling rights, en-passant square and the complete placement. (10) = C02.12 the en-passant normaliser the history relies on. (11) Game::getHistory takes back the moves n-1 .. 0, each with its own undo record, and stops early only at a half-move clock of 0 (game lengths 0..12 evaluated).')
 UNDECIDED = ('equality of hash keys for rule-equal positions beyond the structural clauses (value-level); the index arithmetic of canClaimDrawRep (start -4, step 2, clock bound) - value-level off-by-one territory; console draw '
              'claim semantics. Noticed, outside the property as stated and therefore not reported: WorkerThread::doSearch pushes the hash '
              'of the position AFTER the root move, so helper threads miss in-tree repetitions of the root position (never compared at the root level).')
@@ -75,6 +75,7 @@ def run(fb, rep, tier):
     # it: a weaker test leaves rule-equal positions with different keys and the repetition is not found (shared with C02.12)
     from . import C02
     C02.c12_ep_normaliser(fb, rep, 'C11.10')
+    c11_console_history(fb, rep)
 
 
 def c6_parallel_lists(fb, rep):
@@ -673,3 +674,111 @@ def c9_draw_rule_equality(fb, rep):
                     full = need <= covered
                     how = 'piece-type bitboards %d..%d compared; piece types are 1..%d' % (lo, max(covered) if covered else lo, n_types - 1)
     rep.ob(clause, 'K13 completeness', 'drawRuleEquals compares the complete piece placement (every square, or the bitboard of every piece type)', full, f.where, how, f.sname)
+
+
+# ----------------------------------------------------------------------------- .11
+
+def c11_console_history(fb, rep):
+    """K12 the history the console player hands to the search.  Game::getHistory() rebuilds the earlier positions by taking the
+    game's moves back from the current one; the repetition scan (C11.7) and the player's draw claim count occurrences in
+    that list, so it must contain every position back to the first one of the game (it may stop early only at a position
+    whose half-move clock is 0: nothing before an irreversible move can repeat).  The loop's own init / bound / step and the
+    index expressions of the move and undo-info lists are evaluated for every game length 0..12: the moves taken back must be
+    n-1, n-2, ..., 0 in that order, each with its own undo record."""
+    clause = 'C11.11'
+    f = fb.find1('Game::getHistory')
+    if rep.need(clause, f, 'Game::getHistory') is None:
+        return
+    decls = {v['id']: v for _, _, e in f.events() if e.get('k') == 'decl' for v in e.get('vars', [])}
+    loops = f.natural_loops()
+    takes = [(b, i, e) for b, i, e in f.events() if e.get('k') == 'call' and cname(e) == 'Position::unMakeMove' and len(e.get('args', [])) == 2]
+    if rep.floor(clause, 'take-backs in getHistory', len(takes), 1) is False or len(takes) != 1:
+        if len(takes) > 1:
+            rep.broken(clause, 'more than one take-back in getHistory')
+        return
+    tb, ti, te = takes[0]
+    hs = [h for h, body in loops.items() if tb in body]
+    if len(hs) != 1:
+        rep.broken(clause, 'the take-back is not inside exactly one loop')
+        return
+    h = hs[0]
+    body = loops[h]
+    steps = {}
+    for b in body:
+        for e in f.blocks[b]['ev']:
+            if e.get('k') == 'incdec' and (_strip7(e.get('e')) or {}).get('k') == 'var':
+                steps.setdefault(_strip7(e['e'])['id'], []).append(1 if e.get('op') == '++' else -1)
+    if len(steps) != 1 or len(list(steps.values())[0]) != 1:
+        rep.broken(clause, 'the take-back loop does not step exactly one counter once')
+        return
+    (vid, (step,)), = steps.items()
+
+    def ev(t, env, depth=0):
+        t = _strip7(t)
+        if not isinstance(t, dict) or depth > 8:
+            return None
+        if 'cv' in t:
+            return t['cv']
+        if t.get('k') == 'var':
+            if t.get('id') in env:
+                return env[t['id']]
+            d = decls.get(t.get('id'))
+            return ev(d['init'], env, depth + 1) if d is not None and d.get('init') is not None and t.get('id') != vid else None
+        if t.get('k') == 'mem' and ap(t) == 'this.currentMove':
+            return env['n']
+        if t.get('k') == 'bin':
+            a, b = ev(t.get('l'), env, depth + 1), ev(t.get('r'), env, depth + 1)
+            if a is None or b is None:
+                return None
+            return {'+': a + b, '-': a - b, '<': a < b, '<=': a <= b, '>': a > b, '>=': a >= b, '!=': a != b, '==': a == b}.get(t.get('op'))
+        return None
+
+    def index_of(arg, want_field):
+        for n in walk(arg):
+            if isinstance(n, dict) and n.get('k') == 'call' and n.get('op') == '[]' and ap(n.get('recv')) == want_field and n.get('args'):
+                return n['args'][0]
+        return None
+    im, iu = index_of(te['args'][0], 'this.moveList'), index_of(te['args'][1], 'this.uiInfoList')
+    if rep.need(clause, None if im is None or iu is None else 1, 'moveList[...] / uiInfoList[...] arguments of the take-back') is None:
+        return
+    cond = (f.blocks[h].get('term') or {}).get('cond')
+    init = decls.get(vid, {}).get('init')
+    bad = []
+    n_eval = 0
+    for n in range(0, 13):
+        x = ev(init, {'n': n})
+        seq = []
+        ok_eval = x is not None
+        for _ in range(40):
+            if not ok_eval:
+                break
+            c = ev(cond, {'n': n, vid: x})
+            if c is None:
+                ok_eval = False
+                break
+            if not c:
+                break
+            a, b = ev(im, {'n': n, vid: x}), ev(iu, {'n': n, vid: x})
+            if a is None or b is None:
+                ok_eval = False
+                break
+            seq.append((a, b))
+            x += step
+        if not ok_eval:
+            rep.broken(clause, 'the take-back loop of getHistory is not evaluable for game length %d' % n)
+            return
+        n_eval += 1
+        want = [(k, k) for k in range(n - 1, -1, -1)]
+        if seq != want:
+            bad.append('%d moves played: takes back %s, wanted %s' % (n, [a for a, _ in seq] if all(a == b for a, b in seq) else seq, [k for k, _ in want]))
+    rep.ob(clause, 'K12 finite evaluation', 'getHistory takes back the moves n-1 .. 0, each with its own undo record (game lengths 0..12)', not bad, R.site(f, te),
+           '%d lengths evaluated; %s' % (n_eval, '; '.join(bad[:2]) if bad else 'all as wanted'), f.sname)
+    # the only early exit from the loop is the clock test
+    exits = [(b, s_) for b in body for s_ in f.blocks[b]['succ'] if s_ not in body and b != h]
+    early_ok = True
+    for b, s_ in exits:
+        gs = G.guard_trees(f, set(f.blocks), s_ if (f.blocks[b].get('term') or {}).get('c') != 'BreakStmt' else b)
+        if not any(side and any(isinstance(n_, dict) and n_.get('k') == 'call' and cname(n_) == 'Position::getHalfMoveClock' for n_ in walk(c)) and
+                   isinstance(_strip7(c), dict) and _strip7(c).get('op') == '==' and (_strip7(_strip7(c).get('r')) or {}).get('cv') == 0 for c, side in gs):
+            early_ok = False
+    rep.ob(clause, 'K4 guard', 'getHistory stops early only at a position whose half-move clock is 0', early_ok, f.where, '%d early exit(s)' % len(exits), f.sname)
